@@ -103,7 +103,10 @@ def main():
         prepare(lib, template, False, nobj=0, backend=backend)
     co = Coordinator(lib, workdir, int(nprocs), logged, template)
     em = Emitter(out)
+    hangs = 0
     for i, beh in enumerate(behaviours):
+        if hangs >= 2:       # each hang costs a full time-out; two rejected behaviours say enough
+            break
         em.emit({"e": "Reset", "b": i})
         co.start()
         try:
@@ -111,6 +114,7 @@ def main():
                 ev = co.step(label)
                 em.emit(ev)
                 if ev["e"] == "ProcessDied":
+                    hangs += 1
                     break
             else:
                 em.emit(co.fresh())
